@@ -33,9 +33,8 @@ func (v mapSliceValue) IndexValue(index Value) Value {
 }
 
 func (v mapSliceValue) PropertyValue(index Value) Value {
-	result := v.IndexValue(index)
-	if result == nilValue && index.Interface() == sizeKey {
-		result = ValueOf(len(v.slice))
+	if !v.Contains(index) && index.Interface() == sizeKey {
+		return ValueOf(len(v.slice))
 	}
-	return result
+	return v.IndexValue(index)
 }
